@@ -536,6 +536,10 @@ impl ObservationBagSnapshot {
     }
 }
 
+// Verification hook (H2): module-private accessors for harnesses, kept outside the repository.
+#[cfg(any(kani, folo_verif))]
+include!(concat!(env!("FOLO_VERIF_DIR"), "/kani/nm_impl/observations_hooks.rs"));
+
 #[cfg(test)]
 #[cfg_attr(coverage_nightly, coverage(off))]
 mod tests {
